@@ -34,61 +34,86 @@ Proof.
   - now rewrite IH.
 Qed.
 
-(* interface body: an ordinary comment (no documentation child) changes nothing as long as no
-   documentation is pending at that point *)
+(* interface body.  [keep]: whether an ordinary comment keeps the pending documentation
+   (PstFacts.pst_comment_keeps_doc; the pinned upstream code discarded it) *)
 Definition ordinary (c : tree) : bool := is_comment c && match doc_of c with None => true | Some _ => false end.
 
-Theorem ordinary_comment_in_interface_body md ub c l2 : ordinary c = true ->
-  members_of md ub (c :: l2) None = members_of md ub l2 None.
-Proof.
-  unfold ordinary. intro H. apply andb_prop in H. destruct H as [H1 H2].
-  cbn [members_of]. unfold is_comment in H1. rewrite H1.
-  destruct (doc_of c); [discriminate | reflexivity].
-Qed.
-
-Lemma members_of_cons md ub t r p :
-  members_of md ub (t :: r) p =
-  if is_rule "COMMENT" t then members_of md ub r (doc_of t)
+Lemma members_of_cons keep md ub t r p :
+  members_of_gen keep md ub (t :: r) p =
+  if is_rule "COMMENT" t then members_of_gen keep md ub r (next_pending keep p t)
   else if is_rule "const" t || is_rule "function" t || is_rule "error" t then
-    do m <- member_of md ub p t; do ms <- members_of md ub r None; Ok (m :: ms)
+    do m <- member_of md ub p t; do ms <- members_of_gen keep md ub r None; Ok (m :: ms)
   else Reject ROther.
 Proof. reflexivity. Qed.
 
-Theorem ordinary_comment_after_member md ub c m l1 l2 : ordinary c = true ->
+Lemma ordinary_pending keep c : ordinary c = true -> next_pending keep None c = None.
+Proof.
+  unfold ordinary, next_pending. intro H. apply andb_prop in H. destruct H as [_ H].
+  destruct (doc_of c); [discriminate|]. now destruct keep.
+Qed.
+
+(* an ordinary comment changes nothing as long as no documentation is pending at that point *)
+Theorem ordinary_comment_in_interface_body keep md ub c l2 : ordinary c = true ->
+  members_of_gen keep md ub (c :: l2) None = members_of_gen keep md ub l2 None.
+Proof.
+  intro H. rewrite members_of_cons. pose proof H as H'. unfold ordinary in H'. apply andb_prop in H'. destruct H' as [H1 _].
+  unfold is_comment in H1. rewrite H1. now rewrite (ordinary_pending keep c H).
+Qed.
+
+Theorem ordinary_comment_after_member keep md ub c m l1 l2 : ordinary c = true ->
   is_comment m = false ->
-  forall p, members_of md ub (l1 ++ m :: c :: l2) p = members_of md ub (l1 ++ m :: l2) p.
+  forall p, members_of_gen keep md ub (l1 ++ m :: c :: l2) p = members_of_gen keep md ub (l1 ++ m :: l2) p.
 Proof.
   intros HC HM. induction l1 as [|t l1 IH]; intro p; cbn [app].
-  - rewrite !(members_of_cons md ub m). unfold is_comment in HM. rewrite HM.
+  - rewrite !(members_of_cons keep md ub m). unfold is_comment in HM. rewrite HM.
     destruct (is_rule "const" m || is_rule "function" m || is_rule "error" m); [|reflexivity].
-    now rewrite (ordinary_comment_in_interface_body md ub c l2 HC).
-  - rewrite !(members_of_cons md ub t). destruct (is_rule "COMMENT" t); [apply IH|].
+    now rewrite (ordinary_comment_in_interface_body keep md ub c l2 HC).
+  - rewrite !(members_of_cons keep md ub t). destruct (is_rule "COMMENT" t); [apply IH|].
     destruct (is_rule "const" t || is_rule "function" t || is_rule "error" t); [|reflexivity].
     now rewrite IH.
 Qed.
 
-(* the full statement "an ordinary comment anywhere in an interface body changes nothing" is
-   false: placed between a documentation block and its method it discards the documentation *)
-Theorem doc_then_comment_loses_doc :
-  let doc := T "COMMENT" "" [T "DOCUMENTATION" "/**
+(* with the repaired handling an ordinary comment changes nothing anywhere in an interface body,
+   whatever is pending *)
+Theorem ordinary_comment_anywhere md ub c l1 l2 : ordinary c = true ->
+  forall p, members_of_gen true md ub (l1 ++ c :: l2) p = members_of_gen true md ub (l1 ++ l2) p.
+Proof.
+  intro HC. pose proof HC as H'. unfold ordinary in H'. apply andb_prop in H'. destruct H' as [H1 H2].
+  unfold is_comment in H1.
+  induction l1 as [|t l1 IH]; intro p; cbn [app].
+  - rewrite members_of_cons, H1. unfold next_pending. destruct (doc_of c); [discriminate | reflexivity].
+  - rewrite !(members_of_cons true md ub t). destruct (is_rule "COMMENT" t); [apply IH|].
+    destruct (is_rule "const" t || is_rule "function" t || is_rule "error" t); [|reflexivity].
+    now rewrite IH.
+Qed.
+
+(* the pinned upstream handling: placed between a documentation block and its method an ordinary
+   comment discards the documentation; the repaired handling keeps it *)
+Definition doc_tree := T "COMMENT" "" [T "DOCUMENTATION" "/**
  * d
- */" []] in
-  let c := T "COMMENT" "// x" [] in
-  let f := T "function" "" [T "function_keyword" "method " []; T "ident" "f" []] in
-  members_of Debug false [doc; f] None = Ok [IFunc (mkFn "f" [] false (Some "*
+ */" []].
+Definition ord_tree := T "COMMENT" "// x" [].
+Definition fn_tree := T "function" "" [T "function_keyword" "method " []; T "ident" "f" []].
+
+Theorem doc_then_comment_loses_doc_upstream :
+  members_of_gen false Debug false [doc_tree; fn_tree] None = Ok [IFunc (mkFn "f" [] false (Some "*
  * d
  *"))] /\
-  members_of Debug false [doc; c; f] None = Ok [IFunc (mkFn "f" [] false None)].
+  members_of_gen false Debug false [doc_tree; ord_tree; fn_tree] None = Ok [IFunc (mkFn "f" [] false None)].
 Proof. split; vm_compute; reflexivity. Qed.
 
+Theorem doc_then_comment_keeps_doc_repaired :
+  members_of_gen true Debug false [doc_tree; ord_tree; fn_tree] None = members_of_gen true Debug false [doc_tree; fn_tree] None.
+Proof. vm_compute. reflexivity. Qed.
+
 (* documentation reaches the next member only, and only a function keeps it *)
-Theorem doc_binds_next_member_only md ub d m rest p : is_comment d = true -> is_comment m = false ->
-  members_of md ub (d :: m :: rest) p =
+Theorem doc_binds_next_member_only keep md ub d m rest p : is_comment d = true -> is_comment m = false ->
+  members_of_gen keep md ub (d :: m :: rest) p =
   (if is_rule "const" m || is_rule "function" m || is_rule "error" m
-   then do x <- member_of md ub (doc_of d) m; do xs <- members_of md ub rest None; Ok (x :: xs)
+   then do x <- member_of md ub (next_pending keep p d) m; do xs <- members_of_gen keep md ub rest None; Ok (x :: xs)
    else Reject ROther).
 Proof.
-  intros HD HM. rewrite (members_of_cons md ub d), (members_of_cons md ub m). unfold is_comment in *. now rewrite HD, HM.
+  intros HD HM. rewrite (members_of_cons keep md ub d), (members_of_cons keep md ub m). unfold is_comment in *. now rewrite HD, HM.
 Qed.
 
 Lemma member_doc_only_function md ub d1 d2 m : is_rule "function" m = false ->
